@@ -619,7 +619,25 @@ def gen_rule_not_type0_zones(rng, n, findn=False):
                 yield {"op": "find", "a": f}
 
 
+def gen_year_crossing_zones(rng, n, findn=False):
+    """rules whose yearly instants are displaced across New Year by day times of several days: the instant, looked up and
+    searched back, around New Year (every half day for 8 days each side) and around each start/end of four years"""
+    for _ in range(n):
+        r = year_crossing_rule(rng)
+        yield zone_event({"tr": [], "ty": [dict(r["std"]), dict(r["dst"])], "lp": [], "rule": r})
+        offs = [r["std"]["off"], r["dst"]["off"]]
+        for u in new_year_probes(rng, r):
+            yield {"op": "lookup", "a": {"u": W(u), "via": "ref"}}
+            f = fields_of_local(u + rng.choice(offs), 0)
+            if findn:
+                f["n"] = rng.randint(0, 3)
+                yield {"op": "findn", "a": f}
+            else:
+                yield {"op": "find", "a": f}
+
+
 def gen_find_zones(rng, nzones, findn=False):
+    yield from gen_year_crossing_zones(rng, max(10, nzones // 12), findn=findn)
     yield from gen_leap_in_gap_zones(rng, max(6, nzones // 15), findn=findn)
     yield from gen_rule_not_type0_zones(rng, max(6, nzones // 15), findn=findn)
     for i in range(max(6, nzones // 10)):
@@ -1041,21 +1059,31 @@ def small_time_rule(rng):
 
 def year_crossing_rule(rng):
     """both yearly instants displaced across New Year by day times of several days (late-December days with large positive
-    times, early-January days with large negative times)"""
+    times, early-January days with large negative times); the times are aimed so that the displaced instant really lands in
+    the neighbouring calendar year (a few hours to a few days past New Year) most of the time"""
     so = rng.choice([0, 3600, -18000, 36000])
     do = so + rng.choice([3600, -3600, 1800])
-    late = [["J", rng.randint(355, 365)], ["Z", rng.randint(355, 365)], ["M", 12, rng.choice([4, 5]), rng.randint(0, 6)]]
-    early = [["J", rng.randint(1, 10)], ["Z", rng.randint(0, 9)], ["M", 1, rng.choice([1, 2]), rng.randint(0, 6)]]
+    def late():
+        d = rng.choice([365, 365, 364, 362, 359, rng.randint(358, 365)])
+        nd = rng.choice([["J", d], ["Z", d], ["Z", d - 1]]) if rng.random() < 0.8 else ["M", 12, rng.choice([4, 5]), rng.randint(0, 6)]
+        t = (366 - d) * 86400 + rng.choice([-3600, 0, 1, 3600, 7200, 36000, 43200, 86400, 3 * 86400, rng.randint(0, 4 * 86400)])
+        return nd, max(0, min(604799, t))
+    def early():
+        d = rng.choice([1, 1, 2, 4, 7, rng.randint(1, 8)])
+        nd = rng.choice([["J", d], ["Z", d - 1], ["Z", d]]) if rng.random() < 0.8 else ["M", 1, rng.choice([1, 2]), rng.randint(0, 6)]
+        t = -(d - 1) * 86400 - rng.choice([3600, 7200, 43200, 86400, 3 * 86400, 1, rng.randint(1, 4 * 86400)])
+        return nd, max(-604799, min(0, t))
     k = rng.randrange(4)
-    big = lambda: rng.randint(86400, 604799)
     if k == 0:
-        sd, st, ed, et = rng.choice(late), big(), rng.choice(late), big()
+        (sd, st), (ed, et) = late(), late()
+        if et < st and rng.random() < 0.7:
+            st, et = et, st
     elif k == 1:
-        sd, st, ed, et = rng.choice(early), -big(), rng.choice(early), -big()
+        (sd, st), (ed, et) = early(), early()
     elif k == 2:
-        sd, st, ed, et = rng.choice(late), big(), rng.choice(early), rng.randint(-3600, 7200)
+        (sd, st), (ed, et) = late(), (early()[0], rng.randint(-3600, 7200))
     else:
-        sd, st, ed, et = rng.choice(early), -big(), rng.choice(late), rng.randint(0, 90000)
+        (sd, st), (ed, et) = early(), (late()[0], rng.randint(0, 90000))
     return {"k": "alt", "std": {"off": so, "dst": 0, "des": B("STD")}, "dst": {"off": do, "dst": 1, "des": B("DST")}, "sd": sd, "st": st, "ed": ed, "et": et}
 
 
